@@ -366,8 +366,15 @@ func checkC14(c *Ctx) {
 			c.Check(eq, "R4", "3bet-true-at-one-index", p.InstrPos(ss.Instr), "true only at the acting player's index", "the 3-bet flag is set to true for more than one index of the loop")
 			// sibling false store in the same loop
 			sib := false
+			// … in the very loop that sets it (an earlier, separately conditioned clearing loop does not count)
+			var loop map[*ssa.BasicBlock]bool
+			for _, h := range loopHeaders(ss.Fn) {
+				if l := naturalLoop(h); l[ss.Instr.Block()] && (loop == nil || len(l) < len(loop)) {
+					loop = l
+				}
+			}
 			for _, s2 := range p.Stores([]*ssa.Function{ss.Fn}) {
-				if s2 != ss && s2.Owner == "TablePlayerGameStatistics" && s2.Field == "Is3B" && statsObj(s2.Addr).String() == statsObj(ss.Addr).String() {
+				if s2 != ss && s2.Owner == "TablePlayerGameStatistics" && s2.Field == "Is3B" && statsObj(s2.Addr).String() == statsObj(ss.Addr).String() && loop != nil && loop[s2.Instr.Block()] {
 					if b2, isB := s2.Val.ConstBool(); isB && !b2 {
 						sib = true
 					}
